@@ -220,6 +220,54 @@ def _c_subst(ctx, case):
         check_identity(ctx, case, name, False, e, got, smap, all_subs)
 
 
+@check("C08.multivector")
+def c_multivector(ctx, case):
+    """A multivector (and an object array) with symbolic coefficients: the substitution reaches
+    EVERY coefficient -- whichever of them mention a replaced name --, and one that mentions
+    none comes back as the identical object."""
+    coeffs, d = case
+    from pymbolic.geometric_algebra import MultiVector, Space
+    sp = Space(3)
+    smap = list(d.items())
+    mv = MultiVector(dict(coeffs), sp)
+    arr = np.empty(len(coeffs), dtype=object)
+    for i, (_, c) in enumerate(coeffs):
+        arr[i] = c
+    touched = any(contains_match(c, smap) for _, c in coeffs)
+    _, eps = entry_points(d, {})
+    for name, cached, fn in eps:
+        ctx.case(None)
+        ctx.count("multivector_substitutions")
+        try:
+            got = fn(mv)
+            got_arr = fn(arr) if not cached else None   # (an array is no key for a memo table)
+        except RecursionError:
+            raise
+        except Exception as ex:  # noqa: BLE001
+            ctx.fail("C08.multivector", case, f"mv:{name}:raised:{type(ex).__name__}",
+                     f"{name} on a multivector with coefficients {[(b, G.src(c)) for b, c in coeffs]} "
+                     f"raised {type(ex).__name__}: {ex}")
+            continue
+        want = {b: refsub(c, smap) for b, c in coeffs}
+        gd = dict(got.data) if isinstance(got, MultiVector) else None
+        if gd is None or set(gd) != set(want) or any(not ref_eq(gd[b], want[b]) for b in want):
+            ctx.fail("C08.multivector", case, f"mv:{name}:coefficients",
+                     f"{name}, map {_m(d)}: multivector coefficients {[(b, G.src(c)) for b, c in coeffs]} "
+                     f"became {[(b, G.src(c)) for b, c in (gd or {}).items()]}; expected "
+                     f"{[(b, G.src(c)) for b, c in want.items()]}")
+            continue
+        if not cached and (not isinstance(got_arr, np.ndarray) or got_arr.shape != arr.shape or any(
+                not ref_eq(got_arr[i], want[b]) for i, (b, _) in enumerate(coeffs))):
+            ctx.fail("C08.multivector", case, f"array:{name}:entries",
+                     f"{name}, map {_m(d)}: object array {[G.src(c) for _, c in coeffs]} became "
+                     f"{[G.src(c) for c in got_arr.flat] if isinstance(got_arr, np.ndarray) else got_arr!r}")
+            continue
+        if not touched and not cached and got is not mv:
+            ctx.fail("C08.multivector", case, f"mv:{name}:not-identical",
+                     f"{name}, map {_m(d)}: no coefficient mentions a replaced name, but the "
+                     f"multivector came back as a different object")
+
+
 @check("C08.tablehistory")
 def c_tablehistory(ctx, case):
     """The table of assignments is the CALLER's: using it (through make_subst_func, a mapper or
@@ -465,6 +513,22 @@ def add_derived_key(rng, e, d):
 def workload(ctx):
     rng = ctx.rng
     with HandlerTrace([submod, mapmod]) as tr:
+        # multivectors / arrays with 1 .. 5 coefficients; the replaced name in the first, a
+        # middle, the last, every, or no coefficient
+        X_, Y_, Z_ = (p.Variable(n_) for n_ in "xyz")
+        with_x = [p.Sum((X_, 1)), p.Product((X_, Z_)), X_, p.Power(X_, 2), p.Subscript(Z_, X_)]
+        without = [Z_, p.Sum((Z_, 1)), 3, p.Product((2, Z_)), p.Call(Z_, (Z_,))]
+        for n in (1, 2, 3, 4, 5):
+            for where in ("first", "middle", "last", "all", "none", "first+last"):
+                if not ctx.mine("mv"):
+                    continue
+                hit = {"first": {0}, "middle": {n // 2}, "last": {n - 1}, "all": set(range(n)),
+                       "none": set(), "first+last": {0, n - 1}}[where]
+                bits = [0, 1, 2, 4, 3, 5, 6, 7][:n]
+                coeffs = tuple((b, (with_x if i in hit else without)[i]) for i, b in enumerate(bits))
+                for d in ({"x": p.Product((2, Y_))}, {"x": Y_, "y": X_}, {X_: p.Sum((Y_, 1))}):
+                    ctx.case(("mv", n, where, normal.typed_key(tuple(d.items()))), True, n=0)
+                    ctx.run("C08.multivector", (coeffs, d))
         ag = G.AnyGen(rng, hist=ctx.hist, names="xyzab")
         for i in range(ctx.per_shard(ctx.pick(4000, 80000))):
             ag.pool = []
@@ -526,6 +590,7 @@ def workload(ctx):
         for k, v in tr.handlers().items():
             ctx.count("handler:" + k, v)
     ctx.floor("stream:rows", 500)
+    ctx.floor("multivector_substitutions", 200)
     ctx.floor("stream:row_address_reused", 100)
     ctx.count("replacement_values_of_special_kinds", sum(hist_kinds.values()))
     ctx.floor("replacement_values_of_special_kinds", 300)
